@@ -126,9 +126,26 @@ Qed.
 
 Definition order_phase (k : hkind) : bool := match k with HOrder | HCancel | HExec => true | _ => false end.
 
+(* the errors that are NOT internal assertions of the matching engine *)
+Definition plain_err (e : err) : bool :=
+  match e with EAssertWalk | EAssertPrice | EAssertPost | EAssertNegVolume => false | _ => true end.
+
+Lemma add_order_err_plain m ag mk buy p v ttlv e : add_order m ag mk buy p v ttlv = Err e -> plain_err e = true.
+Proof. unfold add_order. destruct (m_time m <? 0); [intros H; inversion H; reflexivity|]. destruct (negb (mk =? m_id m)); [intros H; inversion H; reflexivity|discriminate]. Qed.
+Lemma cancel_order_err_plain m i e : cancel_order m i = Err e -> plain_err e = true.
+Proof.
+  unfold cancel_order. destruct (m_time m <? 0); [intros H; inversion H; reflexivity|].
+  destruct (find_id i (m_buys m)); [discriminate|]. destruct (find_id i (m_sells m)); [discriminate|].
+  destruct (find_id i (m_gone m)); [discriminate|]. intros H; inversion H; reflexivity.
+Qed.
+
 Section Lift.
 Variable P : sim -> Prop.
-Hypothesis H_fail : forall s e, P s -> P (fail s e).
+Hypothesis H_fail : forall s e, plain_err e = true -> P s -> P (fail s e).
+(* the one place where an error of the matching engine can surface: a round's call of Market._execution *)
+Hypothesis H_fail_exec : forall s mkid x e,
+  find_mkt mkid (s_markets s) = Some x -> cur_switch s = true -> execution (mk_m x) = Err e ->
+  P (emit s (EvRound mkid (m_running (mk_m x)) (s_cur s))) -> P (fail (emit s (EvRound mkid (m_running (mk_m x)) (s_cur s))) e).
 Hypothesis H_emit : forall s e, obs_event e -> P s -> P (emit s e).
 Hypothesis H_callback : forall s aid kind r mkid, P s -> P (callback s aid kind r mkid).
 Hypothesis H_boundary : forall s e, boundary_event e -> P s -> P (flush (write s e)).
@@ -257,7 +274,7 @@ Lemma run_round_pres s mkid : P s -> P (run_round s mkid).
 Proof.
   intros H. unfold run_round. destruct (cur_switch s) eqn:Sw; simpl; auto.
   destruct (find_mkt mkid (s_markets s)) as [x|] eqn:Fx; [|apply H_fail; auto].
-  destruct (execution (mk_m x)) as [[m' logs]|e] eqn:Ex; [|apply H_fail; eapply H_round; eauto].
+  destruct (execution (mk_m x)) as [[m' logs]|e] eqn:Ex; [|eapply H_fail_exec; eauto; eapply H_round; eauto].
   assert (G : forall l s0, round_ctx mkid s0 -> P s0 ->
               P (fold_left (fun s r => notify_fill s mkid r) l s0) ).
   { induction l as [|r rest IH]; simpl; intros s0 C0 H0; auto.
@@ -278,7 +295,7 @@ Proof.
     destruct r' as [tag' ag' mk' buy' p' v' ttlv'|]; [|apply H_fail; auto].
     destruct (find_mkt (req_market (RNew tag ag mk buy p v ttlv)) (s_markets s1)) as [x1|] eqn:Fx1; [|apply H_fail; auto].
     destruct (assoc tag' (s_tags s1)); [apply H_fail; auto|].
-    destruct (add_order (mk_m x1) ag' mk' buy' p' v' ttlv') as [[m' rc]|e] eqn:Ea; [|apply H_fail; auto].
+    destruct (add_order (mk_m x1) ag' mk' buy' p' v' ttlv') as [[m' rc]|e] eqn:Ea; [|apply H_fail; auto; eapply add_order_err_plain; eauto].
     apply guard_pres; [intros; apply run_round_pres; auto|].
     apply guard_pres; [intros; apply fire_simple_pres; auto|].
     apply callback_pres. eapply H_accept_order; eauto.
@@ -289,7 +306,7 @@ Proof.
     destruct (negb (ok s1)); auto.
     destruct (assoc tag (s_tags s)) as [[mm i]|]; [|apply H_fail; auto].
     destruct (find_mkt mk (s_markets s1)) as [x1|] eqn:Fx1; [|apply H_fail; auto].
-    destruct (cancel_order (mk_m x1) i) as [[m' rc]|e] eqn:Ec; [|apply H_fail; auto].
+    destruct (cancel_order (mk_m x1) i) as [[m' rc]|e] eqn:Ec; [|apply H_fail; auto; eapply cancel_order_err_plain; eauto].
     apply guard_pres; [intros; apply run_round_pres; auto|].
     apply guard_pres; [intros; apply fire_simple_pres; auto|].
     apply callback_pres. eapply H_accept_cancel; eauto.
@@ -297,11 +314,18 @@ Qed.
 
 End Lift.
 
+Definition fail_any (P : sim -> Prop) (H : forall s e, P s -> P (fail s e)) : forall s e, plain_err e = true -> P s -> P (fail s e) :=
+  fun s e _ => H s e.
+Definition fail_exec_any (P : sim -> Prop) (H : forall s e, P s -> P (fail s e)) :
+  forall s mkid x e, find_mkt mkid (s_markets s) = Some x -> cur_switch s = true -> execution (mk_m x) = Err e ->
+  P (emit s (EvRound mkid (m_running (mk_m x)) (s_cur s))) -> P (fail (emit s (EvRound mkid (m_running (mk_m x)) (s_cur s))) e) :=
+  fun s mkid x e _ _ _ => H _ e.
+
 (* ---- everything above one request (hook probes split by phase): the same lifting with the preservation by [handle_request] as a hypothesis, so that a
    predicate which is only restored at the end of a request (e.g. "every record has been told to its parties") lifts too ---- *)
 Section UpperK.
 Variable P : sim -> Prop.
-Hypothesis H_fail : forall s e, P s -> P (fail s e).
+Hypothesis H_fail : forall s e, plain_err e = true -> P s -> P (fail s e).
 Hypothesis H_probe_u : forall s ev k before mkid extra, order_phase k = false -> P s -> P (emit s (ev_probe s ev k before mkid extra)).
 Hypothesis H_step : forall s kind mkid x, find_mkt mkid (s_markets s) = Some x -> P s -> P (emit s (ev_step s kind x)).
 Hypothesis H_boundary : forall s e, boundary_event e -> P s -> P (flush (write s e)).
@@ -461,14 +485,14 @@ Let HP : forall s ev k before mkid extra, order_phase k = false -> P s -> P (emi
   fun s ev k before mkid extra _ H => H_emit s (ev_probe s ev k before mkid extra) I H.
 
 Lemma update_markets_up s : P s -> P (update_markets s).
-Proof. apply (update_markets_upk P H_fail H_pop_perm H_pop_draw H_consult handle_request_pres). Qed.
+Proof. apply (update_markets_upk P (fail_any P H_fail) H_pop_perm H_pop_draw H_consult handle_request_pres). Qed.
 Lemma step_begin_pres s mkid : P s -> P (step_begin s mkid).
 Proof. apply (step_begin_k P HP H_step H_halt_before H_shock). Qed.
 Lemma step_end_pres s mkid : P s -> P (step_end s mkid).
 Proof. apply (step_end_k P HP H_step H_halt_before H_shock). Qed.
 Theorem run_up c tape batches funds : P (init_sim c tape batches funds) -> P (run c tape batches funds).
 Proof.
-  apply (run_upk P H_fail HP H_step H_boundary H_tick_all H_pop_perm H_pop_draw H_consult H_halt_before H_shock H_set_cur
+  apply (run_upk P (fail_any P H_fail) HP H_step H_boundary H_tick_all H_pop_perm H_pop_draw H_consult H_halt_before H_shock H_set_cur
            H_begin_iteration handle_request_pres).
 Qed.
 End Upper.
@@ -506,7 +530,7 @@ Hypothesis H_shock : forall s e x, find_mkt (m_id (mk_m x)) (s_markets s) = Some
 Hypothesis H_set_cur : forall s sid, P s -> P (s <| s_cur := sid |>).
 Hypothesis H_begin_iteration : forall s, P s -> P (begin_iteration s).
 
-Let HR := handle_request_pres P H_fail H_emit H_callback H_accept_order H_accept_cancel H_round H_fills H_spent H_halt_after.
+Let HR := handle_request_pres P (fail_any P H_fail) (fail_exec_any P H_fail) H_emit H_callback H_accept_order H_accept_cancel H_round H_fills H_spent H_halt_after.
 
 Lemma update_markets_pres s : P s -> P (update_markets s).
 Proof. apply (update_markets_up P H_fail H_pop_perm H_pop_draw H_consult HR). Qed.
@@ -517,6 +541,56 @@ Proof.
            H_begin_iteration HR).
 Qed.
 End Whole.
+
+(* the one-piece lifting with the error sites told apart: plain errors anywhere, engine errors only from a round's execution *)
+Section WholeE.
+Variable P : sim -> Prop.
+Hypothesis H_fail : forall s e, plain_err e = true -> P s -> P (fail s e).
+Hypothesis H_fail_exec : forall s mkid x e,
+  find_mkt mkid (s_markets s) = Some x -> cur_switch s = true -> execution (mk_m x) = Err e ->
+  P (emit s (EvRound mkid (m_running (mk_m x)) (s_cur s))) -> P (fail (emit s (EvRound mkid (m_running (mk_m x)) (s_cur s))) e).
+Hypothesis H_emit : forall s e, obs_event e -> P s -> P (emit s e).
+Hypothesis H_callback : forall s aid kind r mkid, P s -> P (callback s aid kind r mkid).
+Hypothesis H_step : forall s kind mkid x, find_mkt mkid (s_markets s) = Some x -> P s -> P (emit s (ev_step s kind x)).
+Hypothesis H_boundary : forall s e, boundary_event e -> P s -> P (flush (write s e)).
+Hypothesis H_accept_order : forall s mkid x ag mk buy p v ttlv m' rc tag,
+  find_mkt mkid (s_markets s) = Some x -> add_order (mk_m x) ag mk buy p v ttlv = Ok (m', rc) ->
+  P s -> P (do_accept_order s mkid x m' rc tag).
+Hypothesis H_accept_cancel : forall s mkid x i m' rc,
+  find_mkt mkid (s_markets s) = Some x -> cancel_order (mk_m x) i = Ok (m', rc) ->
+  P s -> P (do_accept_cancel s mkid m' rc).
+Hypothesis H_round : forall s mkid x,
+  find_mkt mkid (s_markets s) = Some x -> cur_switch s = true ->
+  P s -> P (emit s (EvRound mkid (m_running (mk_m x)) (s_cur s))).
+Hypothesis H_fills : forall s mkid x m' logs,
+  find_mkt mkid (s_markets s) = Some x -> execution (mk_m x) = Ok (m', logs) -> cur_switch s = true ->
+  (exists tr, s_trace s = EvRound mkid (m_running (mk_m x)) (s_cur s) :: tr) ->
+  P s -> P (do_fills s mkid m' logs).
+Hypothesis H_tick_all : forall s, P s -> P (tick_all s).
+Hypothesis H_pop_perm : forall s, P s -> P (fst (pop_perm s)).
+Hypothesis H_pop_draw : forall s, P s -> P (fst (pop_draw s)).
+Hypothesis H_consult : forall s aid, P s -> P (fst (consult s aid)).
+Hypothesis H_spent : forall s eid, P s ->
+  P (s <| s_events := upd_event eid (fun e => e <| es_spent := true |>) (s_events s) |>).
+Hypothesis H_halt_after : forall s e mkid, In e (s_events s) -> round_ctx mkid s -> P s -> P (halt_after_execution s e mkid).
+Hypothesis H_halt_before : forall s e x, In e (s_events s) -> find_mkt (m_id (mk_m x)) (s_markets s) = Some x -> P s -> P (halt_before_step s e x).
+Hypothesis H_shock : forall s e x, find_mkt (m_id (mk_m x)) (s_markets s) = Some x -> P s -> P (shock_before_step s e x).
+Hypothesis H_set_cur : forall s sid, P s -> P (s <| s_cur := sid |>).
+Hypothesis H_begin_iteration : forall s, P s -> P (begin_iteration s).
+
+Let HPu : forall s ev k before mkid extra, order_phase k = false -> P s -> P (emit s (ev_probe s ev k before mkid extra)) :=
+  fun s ev k before mkid extra _ H => H_emit s (ev_probe s ev k before mkid extra) I H.
+Let HR := handle_request_pres P H_fail H_fail_exec H_emit H_callback H_accept_order H_accept_cancel H_round H_fills H_spent H_halt_after.
+
+Lemma update_markets_pres_e s : P s -> P (update_markets s).
+Proof. apply (update_markets_upk P H_fail H_pop_perm H_pop_draw H_consult HR). Qed.
+
+Theorem run_pres_e c tape batches funds : P (init_sim c tape batches funds) -> P (run c tape batches funds).
+Proof.
+  apply (run_upk P H_fail HPu H_step H_boundary H_tick_all H_pop_perm H_pop_draw H_consult H_halt_before H_shock H_set_cur
+           H_begin_iteration HR).
+Qed.
+End WholeE.
 
 
 (* the clock step of all markets from the single-market step *)
@@ -533,6 +607,23 @@ Proof.
     assert (Ey : m_id (mk_m y) = m_id (mk_m x)).
     { clear - Fy. induction (s_markets s0) as [|z r IH]; simpl in *; [discriminate|].
       destruct (m_id (mk_m z) =? m_id (mk_m x)) eqn:E; auto. inversion Fy; subst. apply Z.eqb_eq in E. auto. }
+    match goal with |- P (match ?fv with Some _ => _ | None => _ end) => destruct fv as [f|] end; [|apply Hf; auto].
+    destruct (tick (mk_m y) f) as [m' recs] eqn:Et. rewrite <- Ey in *. eapply Ht; eauto. }
+  apply G. apply G. exact H.
+Qed.
+
+(* the same with plain errors only (the clock can only fail with a missing fundamental value) *)
+Lemma tick_all_pres_e (P : sim -> Prop) :
+  (forall s e, plain_err e = true -> P s -> P (fail s e)) ->
+  (forall s x f m' recs, find_mkt (m_id (mk_m x)) (s_markets s) = Some x -> tick (mk_m x) f = (m', recs) ->
+     P s -> P (do_tick s (m_id (mk_m x)) m' recs)) ->
+  forall s, P s -> P (tick_all s).
+Proof.
+  intros Hf Ht s H. unfold tick_all.
+  assert (G : forall l s, P s -> P (fold_left tick_market l s)).
+  { intros l. apply fold_left_pres. intros s0 x H0. unfold tick_market. destruct (negb (ok s0)); auto.
+    destruct (find_mkt (m_id (mk_m x)) (s_markets s0)) as [y|] eqn:Fy; auto.
+    assert (Ey : m_id (mk_m y) = m_id (mk_m x)) by (eapply find_mkt_id; eauto).
     match goal with |- P (match ?fv with Some _ => _ | None => _ end) => destruct fv as [f|] end; [|apply Hf; auto].
     destruct (tick (mk_m y) f) as [m' recs] eqn:Et. rewrite <- Ey in *. eapply Ht; eauto. }
   apply G. apply G. exact H.
